@@ -275,6 +275,10 @@ func (env *ExprEnv) callExpr(e *ast.CallExpr) Val {
 		c := arg(0)
 		t.regArray("$sends", "(Array Int Int)")
 		return intVal(sApp("select", t.lookup(env.st, "$sends"), c.S))
+	case "sel": // sel(k): index chosen by the k-th select statement (textual order) the last time it ran
+		k := constInt(e.Args[0])
+		t.regArray("$g:sel", "(Array Int Int)")
+		return intVal(sApp("select", t.lookup(env.st, "$g:sel"), sInt(int64(k))))
 	case "fired":
 		c := arg(0)
 		t.regArray("$timerfired", "(Array Int Bool)")
